@@ -151,7 +151,8 @@ def stream_numeric(c, prob, N):
             impl = r if r[0] == "raise" else ("ok", [[float(r[1])]])
             colsv = [fs]
         elif kind in ("array", "array_eq"):
-            r = call(prob.interpolate, np.array(q, dtype=float), tsa, np.array(fs, dtype=float), fl, frr, mode)
+            fsm = np.array(fs, dtype=float)
+            r = call(prob.interpolate, np.array(q, dtype=float), tsa, fsm, fl, frr, mode)
             impl = r if r[0] == "raise" else ("ok", [list(map(float, np.asarray(r[1]).ravel()))])
             colsv = [fs]
         elif kind == "cols":
@@ -164,6 +165,20 @@ def stream_numeric(c, prob, N):
             r = call(prob.interpolate, float(q[0]), tsa, fsm, fl, frr, mode)
             impl = r if r[0] == "raise" else ("ok", [[float(x)] for x in np.asarray(r[1]).ravel()])
             colsv = case["cols"]
+        # ---- the result is a fresh value: writing into it must not reach the caller's series
+        #      (history form of "exact at the knots": a second interpolation of the same arrays)
+        if r[0] == "ok" and isinstance(r[1], np.ndarray) and r[1].ndim >= 1 and r[1].flags.writeable:
+            fs_in = fsm if kind != "scalar" else None
+            if fs_in is not None:
+                before = fs_in.copy()
+                r[1][...] = 12345.678
+                c.hit("interp/result-written")
+                if not np.array_equal(fs_in, before, equal_nan=True):
+                    r2 = call(prob.interpolate, float(q[0]) if kind == "cols_scalar" else np.array(q, dtype=float),
+                              tsa, fs_in, fl, frr, mode)
+                    c.fail("writing into the result of interpolate changed the caller's series (the result "
+                           "aliases its input): the next interpolation of the same series is wrong at its knots",
+                           case, {"series_after": fs_in.tolist(), "second_call": repr(r2[1])})
         c.count(("num", kind, mode, len(ts), fl is None, frr is None, tuple(q) == tuple(ts)))
         c.hit("interp/" + kind)
         c.hit("interp/mode%d" % mode)
